@@ -245,6 +245,102 @@ fn bulk(which: usize, seq: &[(Vec<u8>, u64)], ev: &mut Ev) {
     }
 }
 
+/// ONE builder driven by a mixture of single inserts and bulk calls (extend_iter / extend_stream over a chunk of the sequence): a bulk
+/// call stops at its first rejected item with that item's error, items before it are kept, and the builder then "behaves as if the
+/// call never happened" for the rejected item - i.e. later calls are judged against the last key that was really accepted.
+/// `cuts` bit i set = a new call starts after item i; `kinds` (2 bits per call) selects the entry point.
+fn session(fe: usize, seq: &[(Vec<u8>, u64)], cuts: u64, kinds: u64, ev: &mut Ev) {
+    let set_mode = fe == 1;
+    let name = ["MapBuilder session", "SetBuilder session", "raw::Builder session"][fe];
+    let mut model = Model::new(set_mode);
+    enum B {
+        M(MapBuilder<Vec<u8>>),
+        S(SetBuilder<Vec<u8>>),
+        R(Builder<Vec<u8>>),
+    }
+    let mut b = match fe {
+        0 => B::M(MapBuilder::memory()),
+        1 => B::S(SetBuilder::memory()),
+        _ => B::R(Builder::memory()),
+    };
+    let (mut i, mut opno) = (0usize, 0u32);
+    while i < seq.len() {
+        let mut j = i + 1;
+        while j < seq.len() && (cuts >> ((j - 1) % 64)) & 1 == 0 {
+            j += 1;
+        }
+        let chunk = &seq[i..j];
+        let kind = (kinds >> ((2 * opno) % 64)) & 3;
+        let keys_only: Vec<(Vec<u8>, u64)> = chunk.iter().map(|(k, _)| (k.clone(), 0)).collect();
+        let single = chunk.len() == 1 && kind == 0;
+        let res: Result<(), fst::Error> = match &mut b {
+            B::M(x) => {
+                if single {
+                    x.insert(&chunk[0].0, chunk[0].1)
+                } else if kind == 2 {
+                    x.extend_stream(VecMapStream(VecStream::new(chunk)))
+                } else {
+                    x.extend_iter(chunk.iter().map(|(k, v)| (k, *v)))
+                }
+            }
+            B::S(x) => {
+                if single {
+                    x.insert(&chunk[0].0)
+                } else if kind == 2 {
+                    x.extend_stream(VecSetStream(VecStream::new(&keys_only)))
+                } else {
+                    x.extend_iter(chunk.iter().map(|(k, _)| k))
+                }
+            }
+            B::R(x) => {
+                if single {
+                    x.insert(&chunk[0].0, chunk[0].1)
+                } else if kind == 2 {
+                    x.extend_stream(VecStream::new(chunk))
+                } else {
+                    x.extend_iter(chunk.iter().map(|(k, v)| (k, raw::Output::new(*v))))
+                }
+            }
+        };
+        let mut want = Verdict::Accept;
+        for (k, v) in chunk {
+            let vd = model.step(k, *v);
+            if vd != Verdict::Accept {
+                want = vd;
+                break;
+            }
+        }
+        ev.eval(None);
+        ev.count(if single { "session-calls:single" } else { "session-calls:bulk" });
+        match classify(&res) {
+            Err(e) => {
+                ev.violate("wrong-error", format!("{} call {}: {}", name, opno, e), seq_json(name, seq));
+                return;
+            }
+            Ok(got) => {
+                if got != want {
+                    ev.violate(if single { "contract" } else { "bulk-contract" }, format!("{} call {} ({} item(s) starting at item {}, cuts {:#b}): got {:?}, contract says {:?}", name, opno, chunk.len(), i, cuts, got, want), seq_json(name, seq));
+                    return;
+                }
+                if !single && want != Verdict::Accept {
+                    ev.count("session-calls:bulk-stopped-at-a-rejection-and-builder-used-on");
+                }
+            }
+        }
+        i = j;
+        opno += 1;
+    }
+    let bytes = match b {
+        B::M(x) => x.into_inner(),
+        B::S(x) => x.into_inner(),
+        B::R(x) => x.into_inner(),
+    };
+    match bytes {
+        Ok(bytes) => inspect(name, &bytes, &model.accepted, seq, ev),
+        Err(e) => ev.violate("finish-failed", format!("{}: finishing after the sequence failed: {}", name, e), seq_json(name, seq)),
+    }
+}
+
 pub fn run(ctx: &Ctx) -> i32 {
     let keys: Vec<Vec<u8>> = vec![b"".to_vec(), b"a".to_vec(), b"ab".to_vec(), b"b".to_vec(), b"ba".to_vec(), b"c".to_vec()];
     // all call sequences of length <= 5 over 6 keys
@@ -278,6 +374,22 @@ pub fn run(ctx: &Ctx) -> i32 {
             for w in 0..10 {
                 if let Err(p) = guard(|| bulk(w, &seq, ev)) {
                     ev.violate("builder-panic", format!("bulk front end {} panicked: {}", w, p), seq_json("bulk", &seq));
+                }
+            }
+            // the same sequence as a mixture of single and bulk calls on ONE builder: every segmentation for sequences <= 5
+            if seq.len() >= 2 && seq.len() <= 5 {
+                for cuts in 0..(1u64 << (seq.len() - 1)) {
+                    for fe in 0..3 {
+                        let kinds = crate::rng::fnv_u64(si as u64, cuts * 3 + fe as u64);
+                        if let Err(p) = guard(|| session(fe, &seq, cuts, kinds, ev)) {
+                            ev.violate("builder-panic", format!("session on front end {} panicked: {}", fe, p), seq_json("session", &seq));
+                        }
+                    }
+                }
+            } else if seq.len() > 5 {
+                let cuts = crate::rng::fnv_u64(0x5e55, si as u64);
+                if let Err(p) = guard(|| session(si % 3, &seq, cuts, cuts >> 7, ev)) {
+                    ev.violate("builder-panic", format!("session panicked: {}", p), seq_json("session", &seq));
                 }
             }
             ev.distinct_extra += ev.evaluations - before;
@@ -383,6 +495,16 @@ pub fn run(ctx: &Ctx) -> i32 {
             if let Err(p) = guard(|| bulk(i, &seq, ev)) {
                 ev.violate("builder-panic", format!("bulk panicked: {}", p), seq_json("bulk", &seq));
             }
+            // the random sequence as a mixture of single and bulk calls on one builder (random segmentation, sparse and dense cuts)
+            let cuts = match i % 3 {
+                0 => r.next(),
+                1 => r.next() & r.next() & r.next(),
+                _ => r.next() | r.next(),
+            };
+            let kinds = r.next();
+            if let Err(p) = guard(|| session(i % 3, &seq, cuts, kinds, ev)) {
+                ev.violate("builder-panic", format!("session panicked: {}", p), seq_json("session", &seq));
+            }
             ev.distinct_extra += ev.evaluations - before;
             ev.count("sequences:random");
         }
@@ -396,9 +518,9 @@ pub fn run(ctx: &Ctx) -> i32 {
         ev,
         Spec {
             level: "exploration",
-            rule: "one evaluation = one builder call (insert/add, or one bulk call) whose result - accept / DuplicateKey{got} / OutOfOrder{previous,got}, payloads included - is compared with a sequential model (last accepted key), bytes_written must not move on a rejected call, and the finished FST must hold exactly the accepted history; sequences: ALL 55987 (thorough: 335923) call sequences of length <=6 (thorough <=7) over {\"\",a,ab,b,ba,c} x {MapBuilder, SetBuilder, raw insert-only, raw add-only} step by step, each also fed to 10 bulk front ends (extend_iter, extend_stream, from_iter, from_iter_map/set) which must stop at the first rejected item with that item's error and (extend_*) keep the items before it; a sequence of 70000-byte keys (payloads must carry the complete keys); from_iter/extend_iter on lazy iterators claiming usize::MAX items; random sequences of 10..10^4 calls with 0-50% offending calls; non-trivial = every call; distinct = (sequence, front end, call index), distinct by construction",
+            rule: "one evaluation = one builder call (insert/add, or one bulk call) whose result - accept / DuplicateKey{got} / OutOfOrder{previous,got}, payloads included - is compared with a sequential model (last accepted key), bytes_written must not move on a rejected call, and the finished FST must hold exactly the accepted history; every sequence of length 2..5 is additionally replayed on ONE builder under EVERY segmentation into single inserts and bulk calls (extend_iter / extend_stream), so calls that follow a bulk call which stopped at a rejection are judged against the key that was really accepted last; sequences: ALL 55987 (thorough: 335923) call sequences of length <=6 (thorough <=7) over {\"\",a,ab,b,ba,c} x {MapBuilder, SetBuilder, raw insert-only, raw add-only} step by step, each also fed to 10 bulk front ends (extend_iter, extend_stream, from_iter, from_iter_map/set) which must stop at the first rejected item with that item's error and (extend_*) keep the items before it; a sequence of 70000-byte keys (payloads must carry the complete keys); from_iter/extend_iter on lazy iterators claiming usize::MAX items; random sequences of 10..10^4 calls with 0-50% offending calls; non-trivial = every call; distinct = (sequence, front end, call index), distinct by construction",
             assumptions: vec!["mixing add and insert on one raw builder is neither a map nor a set builder and is not judged".into()],
-            floors: vec![("calls:accepted", 1000), ("calls:rejected-duplicate", 1000), ("calls:rejected-out-of-order", 1000), ("bulk-calls:stopped-at-first-rejection", 1000), ("sequences:exhaustive", 55_987), ("sequences:70000-byte-keys", 1), ("bulk-calls:astronomical-size-hint", 1)],
+            floors: vec![("calls:accepted", 1000), ("calls:rejected-duplicate", 1000), ("calls:rejected-out-of-order", 1000), ("bulk-calls:stopped-at-first-rejection", 1000), ("session-calls:bulk-stopped-at-a-rejection-and-builder-used-on", 1000), ("sequences:exhaustive", 55_987), ("sequences:70000-byte-keys", 1), ("bulk-calls:astronomical-size-hint", 1)],
             exhaustive: Some(true),
         },
     )
